@@ -13,6 +13,14 @@ import (
 
 const verifC13max = 1 << 53 // integers of magnitude below 2^53
 
+func verifC13pow10(d int) int {
+	p := 1
+	for i := 0; i < d; i++ {
+		p *= 10
+	}
+	return p
+}
+
 // VerifC13IntNum: every integer v, |v| < 2^53: int -> num -> int and int -> num -> (compare) keep the
 // value; the typed re-read of an `int` as `num` and back is this composition.
 func VerifC13IntNum() {
@@ -37,43 +45,6 @@ func VerifC13IntNum() {
 	}
 }
 
-// verifC13digits: a canonical decimal integer text: optional '-', n digits, no leading zero unless
-// the number is the single digit 0; returns the text and its value (Horner, exact in int64).
-func verifC13digits(n int) (string, int) {
-	neg := rt.Bool("negative")
-	b := rt.Bytes("digit", n)
-	val := 0
-	for i, c := range b {
-		rt.Assume(rt.And(c >= '0', c <= '9'))
-		if i == 0 && n > 1 {
-			rt.Assume(c != '0')
-		}
-		val = val*10 + int(c-'0')
-	}
-	s := string(b)
-	if neg {
-		rt.Assume(val != 0) // "-0" is not the text form of an integer
-		return "-" + s, -val
-	}
-	return s, val
-}
-
-// VerifC13DigitsToInt: every canonical decimal text of 1..n digits with value below 2^53 (the text form
-// of such an integer) converts to exactly that integer / that number (real strconv.ParseFloat).
-func VerifC13DigitsToInt() {
-	n := 1 + rt.Choice("digits", rt.Param("n"))
-	s, val := verifC13digits(n)
-	rt.Assume(rt.And(val > -verifC13max, val < verifC13max))
-	i, err := ConvertGoType(s, Integer)
-	rt.Assert(err == nil, "str -> int failed on a canonical integer text")
-	rt.Assert(i.(int) == val, "str -> int gives another integer")
-	rt.Reach("str-int")
-	f, err := ConvertGoType(s, Number)
-	rt.Assert(err == nil, "str -> num failed on a canonical integer text")
-	rt.Assert(f.(float64) == float64(val), "str -> num gives another number")
-	rt.Reach("str-num")
-}
-
 // verifC13ints: boundary integers (all below 2^53 in magnitude)
 var verifC13ints = []int{
 	0, 1, 9, 10, 99, 100, 101, 999, 1000, 12345, 65535, 65536, 99999, 100000, 999999, 1000000,
@@ -88,13 +59,19 @@ var verifC13ints = []int{
 func VerifC13IntToStr() {
 	d := rt.Param("d")
 	var v int
-	if rt.Choice("family", 2) == 0 {
+	switch rt.Choice("family", 4) {
+	case 0: // every integer of up to d digits
 		for k := 0; k < d; k++ {
 			v = v*10 + rt.Choice("digit", 10)
 		}
-	} else {
+	case 1:
 		v = verifC13ints[rt.Choice("boundary", len(verifC13ints))]
+	case 2: // around every power of two below 2^53
+		v = 1<<rt.Choice("log2", 53) + rt.Choice("delta", 5) - 2
+	default: // around every power of ten below 2^53
+		v = verifC13pow10(rt.Choice("log10", 16)) + rt.Choice("delta", 5) - 2
 	}
+	rt.Assume(v < verifC13max)
 	if rt.Choice("negative", 2) == 1 {
 		v = -v
 	}
@@ -145,7 +122,22 @@ var verifC13floats = []float64{
 // VerifC13FloatPool: float -> str -> num for the doubles above and their negations (real
 // strconv.FormatFloat('f', -1) and ParseFloat). Enumeration, not a proof over all doubles.
 func VerifC13FloatPool() {
-	f := verifC13floats[rt.Choice("float", len(verifC13floats))]
+	var f float64
+	if rt.Choice("family", 2) == 0 {
+		f = verifC13floats[rt.Choice("float", len(verifC13floats))]
+	} else {
+		// every `stride`-th biased exponent 0 (subnormals) .. 2046, with six mantissa patterns
+		stride := rt.Param("stride")
+		if stride < 1 {
+			stride = 1
+		}
+		e := rt.Choice("exponent", (2046+stride)/stride) * stride
+		if e > 2046 {
+			e = 2046
+		}
+		m := []uint64{0, 1, 1<<52 - 1, 0x5555555555555, 0xAAAAAAAAAAAAA, 1 << 51}[rt.Choice("mantissa", 6)]
+		f = math.Float64frombits(uint64(e)<<52 | m)
+	}
 	if rt.Choice("negative", 2) == 1 {
 		f = -f
 	}
